@@ -3,8 +3,9 @@
    stay extracted inductives. *)
 Require Extraction.
 Require Import ExtrOcamlBasic.
-From DS Require Import Base PyStr Values Expr TabParse Interp Tables Constants.
+From DS Require Import Base PyStr Values Expr TabParse Interp Options Tables Constants.
 Extraction Language OCaml.
 
 Extraction "model.ml" compile_text compile_raw tokenize prepare_text parse_document convert_to
-  is_var all_vars Z_to_str N_to_str upper strip split_ws1 default_options palette.
+  is_var all_vars Z_to_str N_to_str upper strip split_ws1 default_options palette
+  calculate_options rewritten_config options_of_yaml.
